@@ -122,7 +122,7 @@ def vdesc_in():
                                   "t": st.floats(min_value=0.0, max_value=1.0)})
 
 
-def op_strategy(only_bounds=False):
+def op_strategy(only_bounds=False, only_modes=False):
     from hypothesis import strategies as st
     num = st.one_of(st.integers(-200, 400).map(float),
                     st.floats(min_value=-500, max_value=5000, allow_nan=False),
@@ -149,7 +149,7 @@ def op_strategy(only_bounds=False):
         st.tuples(mvname, aim, fs_in), st.tuples(mvname, aim_in, fs),
         st.tuples(mvname, aim_in, fs_in), st.tuples(mvname, aim_in, fs_in)).map(
         lambda t: {"op": t[0], "aim": t[1], "fs": t[2] if t[0] != "set_axis" else {}})
-    scalar = st.one_of(
+    SCALAR_ALTS = (
         st.tuples(st.sampled_from(["set_feed_rate", "set_tool_power",
                                    "set_bed_temperature", "set_hotend_temperature",
                                    "set_chamber_temperature"]), vd).map(
@@ -163,7 +163,7 @@ def op_strategy(only_bounds=False):
                   st.sampled_from(["S", "R", "s", "r"]), vd).map(
             lambda t: {"op": "halt", "mode": t[0], "letter": t[1], "v": t[2]}),
     )
-    misc = st.one_of(
+    MISC_ALTS = (
         st.sampled_from(["absolute", "relative"]).map(
             lambda m: {"op": "set_distance_mode", "mode": m}),
         st.one_of(st.none(), st.fixed_dictionaries({}, optional={"F": vd, "S": vd})).map(
@@ -174,9 +174,13 @@ def op_strategy(only_bounds=False):
         st.fixed_dictionaries({"op": st.just("shape"), "d": hist.shape_strategy(),
                                "dir": st.sampled_from(["cw", "ccw"]),
                                "goto_center": st.booleans()}),
-        # modal settings that must not change how limits are enforced
+        # modal settings that must not change how limits are enforced (every
+        # second one is a feed-mode switch: F words are bounded under each mode)
         st.sampled_from([("set_feed_mode", "1/time"), ("set_feed_mode", "units/rev"),
                          ("set_feed_mode", "units/min"), ("set_feed_mode", "1/time"),
+                         ("set_feed_mode", "1/time"), ("set_feed_mode", "units/rev"),
+                         ("set_feed_mode", "units/rev"), ("set_feed_mode", "1/time"),
+                         ("set_feed_mode", "units/min"),
                          ("set_extrusion_mode", "relative"), ("set_extrusion_mode", "absolute"),
                          ("set_length_units", "inches"), ("set_length_units", "millimeters"),
                          ("set_temperature_units", "kelvin"), ("set_temperature_units", "celsius"),
@@ -191,10 +195,13 @@ def op_strategy(only_bounds=False):
                      st.floats(min_value=1, max_value=40), st.booleans()).map(
         lambda t: {"op": "box_excluding_position", "axis": t[0], "gap": t[1], "w": t[2],
                    "below": t[3]})
+    if only_modes:
+        return MISC_ALTS[-1]
     if only_bounds:
         return st.one_of(sb, sb, sb, box)
-    return st.one_of(sb, sb, box, box, motion, motion, motion, scalar, scalar, misc,
-                     motion, motion, scalar, excl)
+    # (explicit weights, see hist.weighted)
+    return hist.weighted((3, sb), (3, box), (9, motion), (5, hist.equally(*SCALAR_ALTS)),
+                         (4, hist.equally(*MISC_ALTS[:-1])), (2, MISC_ALTS[-1]), (1, excl))
 
 
 BOUND_OF = {"set_feed_rate": "feed-rate", "set_tool_power": "tool-power",
@@ -518,9 +525,12 @@ def strategy(n):
     from hypothesis import strategies as st
     return st.fixed_dictionaries({
         "dp": st.sampled_from([3, 5, 6, 9]),
+        # limits first, then (half of the cases) one or two modal settings, so
+        # that whole histories run under a non-default feed mode / unit system
         "ops": st.tuples(st.lists(op_strategy(only_bounds=True), max_size=6),
+                         st.lists(op_strategy(only_modes=True), max_size=2),
                          st.lists(op_strategy(), min_size=1, max_size=n)).map(
-            lambda t: t[0] + t[1])})
+            lambda t: t[0] + t[1] + t[2])})
 
 
 def run_shard(ctx):
